@@ -393,3 +393,19 @@ Theorem C10_source_cancel_liquidity_stake_twice : forall rt amt v u g f exp now 
   CancelLiquidityStake_receive rt' amt' v u g f exp now2 sv2 owner zts = Ok (bl2, e2, rt2, amt2, eff2) ->
   bl2 = [] \/ bl2 = [(owner, 0, zts)].
 Proof. exact cancel_liquidity_stake_twice. Qed.
+(* the QSR deposit behind a pillar / sentinel registration: DepositQsr adds exactly the received amount; checkAndConsumeQsr
+   (pillar.Register, sentinel.Register) never takes more than is deposited, and a refusal leaves the deposit untouched *)
+Theorem C10_source_deposit_qsr_adds : forall q v g amt sv bl q' eff,
+  DepositQsr_receive q v g amt sv = Ok (bl, 0, q', eff) -> bl = [] /\ v = 0 /\ q' = q + amt /\ eff = Some 1.
+Proof. exact deposit_qsr_adds. Qed.
+Theorem C10_source_deposit_qsr_refusal : forall q v g amt sv bl e q' eff,
+  DepositQsr_receive q v g amt sv = Ok (bl, e, q', eff) -> e <> 0 -> bl = [] /\ q' = q /\ eff = None.
+Proof. exact deposit_qsr_refusal. Qed.
+Theorem C10_source_consume_qsr_success : forall req q g d sv q' ed es,
+  checkAndConsumeQsr req q g d sv = Ok (0, q', ed, es) ->
+  req <= q /\ q' = q - req /\
+  ((q' = 0 /\ ed = Some 1 /\ es = None) \/ (q' <> 0 /\ ed = None /\ es = Some 1)).
+Proof. exact consume_qsr_success. Qed.
+Theorem C10_source_consume_qsr_refusal : forall req q g d sv e q' ed es,
+  checkAndConsumeQsr req q g d sv = Ok (e, q', ed, es) -> e <> 0 -> q < req /\ q' = q /\ ed = None /\ es = None.
+Proof. exact consume_qsr_refusal. Qed.
